@@ -32,10 +32,13 @@ const (
 	KVirtSplit             // size-split parent, stored only as a header carried by its children
 	KVirtEC                // EC parent, stored only as a header carried by its parts
 	KNever                 // an address that is never stored
+	KMiddle                // middle part of a v2 split chain: first ID only, no parent header
+	KV1Part                // non-last part of a v1 split chain: split ID only, no parent header
+	KV1Last                // last part of a v1 split chain: split ID + parent header
 )
 
 func (k Kind) String() string {
-	return [...]string{"regular", "split-first", "split-last", "link", "ec-part", "tombstone", "lock", "split-parent", "ec-parent", "never-stored"}[k]
+	return [...]string{"regular", "split-first", "split-last", "link", "ec-part", "tombstone", "lock", "split-parent", "ec-parent", "never-stored", "split-middle", "v1-part", "v1-last"}[k]
 }
 
 // Spec is the ground truth about one universe member (what its header says).
@@ -50,6 +53,8 @@ type Spec struct {
 	Target string // tombstone/lock target
 	Parent string // parent whose header (with ID) this object carries
 	First  string // first-part ID carried in the split header
+	Split  string // v1 split ID carried in the split header (named after the chain's root)
+	Extra  bool   // member of the chain-shape families: driven by the chain alphabet only
 	Chain  string // split/EC family root this member belongs to (ground truth, "" if none)
 	Attr   string // value of the user attribute "kind" ("" = absent)
 	ECIdx  int    // EC part index (rule 0)
@@ -98,7 +103,7 @@ func init() {
 	// first bytes: tombstones/locks sort both before and after their targets; C1/C2 share a first byte.
 	add := func(s Spec, first byte) {
 		s.ID = oid.ID(mkID(first, s.Name))
-		if s.Kind == KLast { // share two leading bytes with C1 (fstree directory collision)
+		if s.Kind == KLast && !s.Extra { // share two leading bytes with C1 (fstree directory collision)
 			c1 := ByName[s.First]
 			s.ID[0], s.ID[1] = c1.ID[0], c1.ID[1]
 		}
@@ -134,6 +139,28 @@ func init() {
 	add(Spec{Name: "DF", Cnr: CB, Kind: KNever, Type: reg, Exp: -1, Chain: "Q"}, 0x61) // first part of Q's chain, never stored here
 	add(Spec{Name: "D", Cnr: CB, Kind: KVirtEC, Type: reg, Exp: -1, Size: 70, Parent: "Q", First: "DF", Chain: "Q"}, 0x62)
 	add(Spec{Name: "D0", Cnr: CB, Kind: KECPart, Type: reg, Exp: -1, Size: 35, Parent: "D", Chain: "Q", ECIdx: 0, Put: true}, 0x63)
+
+	// Chain-shape families (container cB), explored by the chain alphabet. The parts that carry NO
+	// parent header of their own are bound to the chain only by the first-part ID (v2) or the split
+	// ID (v1); their IDs are forced to sort before, between and after the siblings that do carry the
+	// parent header, and the search stores every subset of them, so the ID order among the stored
+	// siblings is an explored dimension.
+	//   v2: G (root, expiring) <- G1 first, Ga/Gb/Gc middle, G2 last, GK link; tombstone TG -> G
+	//   order by ID: Ga < G1 < G2 < Gb < GK < Gc
+	add(Spec{Name: "G", Cnr: CB, Kind: KVirtSplit, Type: reg, Exp: 1, Size: 300, Chain: "G", Attr: "big", Extra: true}, 0x2F)
+	add(Spec{Name: "G1", Cnr: CB, Kind: KFirst, Type: reg, Exp: -1, Size: 41, Chain: "G", Put: true, Extra: true}, 0x22)
+	add(Spec{Name: "Ga", Cnr: CB, Kind: KMiddle, Type: reg, Exp: -1, Size: 42, First: "G1", Chain: "G", Put: true, Extra: true}, 0x21)
+	add(Spec{Name: "G2", Cnr: CB, Kind: KLast, Type: reg, Exp: -1, Size: 43, Parent: "G", First: "G1", Chain: "G", Put: true, Extra: true}, 0x23)
+	add(Spec{Name: "Gb", Cnr: CB, Kind: KMiddle, Type: reg, Exp: -1, Size: 44, First: "G1", Chain: "G", Put: true, Extra: true}, 0x24)
+	add(Spec{Name: "GK", Cnr: CB, Kind: KLink, Type: object.TypeLink, Exp: -1, Size: 6, Parent: "G", First: "G1", Chain: "G", Put: true, Extra: true}, 0x25)
+	add(Spec{Name: "Gc", Cnr: CB, Kind: KMiddle, Type: reg, Exp: -1, Size: 45, First: "G1", Chain: "G", Put: true, Extra: true}, 0x27)
+	add(Spec{Name: "TG", Cnr: CB, Kind: KTomb, Type: object.TypeTombstone, Exp: -1, Target: "G", Put: true, Extra: true}, 0x26)
+	//   v1: W (root, expiring) <- Va, Vb non-last parts, Vl last part; tombstone TW -> W; Va < Vl < Vb
+	add(Spec{Name: "W", Cnr: CB, Kind: KVirtSplit, Type: reg, Exp: 1, Size: 200, Chain: "W", Attr: "big", Extra: true}, 0x3F)
+	add(Spec{Name: "Va", Cnr: CB, Kind: KV1Part, Type: reg, Exp: -1, Size: 51, Split: "W", Chain: "W", Put: true, Extra: true}, 0x31)
+	add(Spec{Name: "Vl", Cnr: CB, Kind: KV1Last, Type: reg, Exp: -1, Size: 52, Parent: "W", Split: "W", Chain: "W", Put: true, Extra: true}, 0x33)
+	add(Spec{Name: "Vb", Cnr: CB, Kind: KV1Part, Type: reg, Exp: -1, Size: 53, Split: "W", Chain: "W", Put: true, Extra: true}, 0x35)
+	add(Spec{Name: "TW", Cnr: CB, Kind: KTomb, Type: object.TypeTombstone, Exp: -1, Target: "W", Put: true, Extra: true}, 0x32)
 
 	for _, s := range Specs {
 		build(s)
@@ -180,8 +207,24 @@ func build(s *Spec) {
 		if s.Kind == KLast {
 			o.SetPreviousID(ByName[s.First].ID)
 		} else {
-			o.SetChildren(ByName["C1"].ID, ByName["C2"].ID)
+			var ch []oid.ID
+			for _, m := range Specs {
+				if m.Chain == s.Chain && m.Put && m.Kind != KLink && m.Kind != KTomb {
+					ch = append(ch, m.ID)
+				}
+			}
+			o.SetChildren(ch...)
 		}
+	case KMiddle:
+		o.SetFirstID(ByName[s.First].ID)
+		o.SetPreviousID(ByName[s.First].ID)
+	case KV1Part:
+		o.SetSplitID(splitID(s.Split))
+	case KV1Last:
+		build(ByName[s.Parent])
+		o.SetParent(ByName[s.Parent].Obj)
+		o.SetParentID(ByName[s.Parent].ID)
+		o.SetSplitID(splitID(s.Split))
 	case KECPart:
 		build(ByName[s.Parent])
 		part, err := iec.FormObjectForECPart(nil, *ByName[s.Parent].Obj, nil, iec.PartInfo{RuleIndex: 0, Index: s.ECIdx})
@@ -205,6 +248,12 @@ func build(s *Spec) {
 		}
 	}
 	s.Obj = o
+}
+
+// splitID derives the fixed v1 split ID of a chain.
+func splitID(chain string) *object.SplitID {
+	h := sha256.Sum256([]byte("verif-metaworld-split-" + chain))
+	return object.NewSplitIDFromV2(h[:16])
 }
 
 // Addr is the address of a universe member.
